@@ -62,10 +62,14 @@ static void obs_str(obuf_t *o, spif_str_t s, const char *tag, int k)
     if (s->len) ob_add(o, s->s, (size_t)s->len);
     ob_add(o, ";", 1);
 }
+/* obs_identity: also say which element it is (or is a copy of).  Two elements that compare equal are still two elements, and a
+   copy of a container holds copies of the same elements in the same places; used for the copy-equals-original check only --
+   what comp() calls equal is a matter of keys. */
+static int obs_identity;
 static void obs_elem(obuf_t *o, spif_obj_t e, int k)
 {
     if (!e) { ob_add(o, "H,", 2); return; }
-    if (vobj_valid(e)) { ob_printf(o, "v%ld,", ((vobj_t)e)->key); return; }
+    if (vobj_valid(e)) { if (obs_identity) ob_printf(o, "v%ld#%ld,", ((vobj_t)e)->key, ((vobj_t)e)->root); else ob_printf(o, "v%ld,", ((vobj_t)e)->key); return; }
     if (sa_readable(e, sizeof(struct spif_str_t_struct)) && SPIF_OBJ_IS_STR(e)) { obs_str(o, SPIF_STR(e), "s", k); return; }
     if (sa_readable(e, sizeof(struct spif_objpair_t_struct)) && SPIF_OBJ_IS_OBJPAIR(e)) {
         spif_objpair_t p = SPIF_OBJPAIR(e);
@@ -800,6 +804,12 @@ static void exec_common(const plan_t *p)
             if (mode_c05) {
                 observe(&cur, d);
                 if (cur.len != last[s].len || memcmp(cur.b, last[s].b, cur.len)) FAIL("MISMATCH", "dup-value", okind[s], "copy observes as {%.80s} but the original as {%.80s}", cur.b, last[s].b);
+                if (IS_CONT(okind[s]) && !strelems) {
+                    static obuf_t oi, ci;
+                    obs_identity = 1; observe(&oi, s); observe(&ci, d); obs_identity = 0;
+                    if (ci.len != oi.len || memcmp(ci.b, oi.b, ci.len)) FAIL("MISMATCH", "dup-value", okind[s], "element by element (key#which) the copy observes as {%.80s} but the original as {%.80s}", ci.b, oi.b);
+                    probe_hit("copy_compared_element_by_element");
+                }
                 if (sgn(SPIF_OBJ_COMP(obj[s], c)) != 0 && okind[s] != K_LIST_D && okind[s] != K_VEC_D && okind[s] != K_MAP_D && okind[s] != K_LIST_L && okind[s] != K_VEC_L && okind[s] != K_MAP_L)
                     FAIL("MISMATCH", "dup-compares-equal", okind[s], "a fresh copy does not compare EQUAL to its original");
             }
